@@ -68,120 +68,14 @@ def _slot_order(fn, tuple_var):
 
 
 def c_facts(tu):
-    facts = {}
-    # ---- leaf writer -----------------------------------------------------------
-    w = tu.func("bucket_getstate")
-    bv = _calls(w, "Py_BuildValue")
-    fmts = sorted(_fmt(c, 0) for c in bv)
-    second = [path(c.kids[3]) for c in bv if _fmt(c, 0) == "OO"]
-    sizes = sorted(_norm(text(c.kids[1])) for c in _calls(w, "PyTuple_New"))
-    order = _slot_order(w, "items")
-    facts["leaf_writer"] = {"formats": fmts, "with_next_second": second[0] if second else None,
-                            "sizes": sizes, "mapping_order": order[:2]}
-    # ---- leaf readers ----------------------------------------------------------
-    for key, fname in (("leaf_reader", "_bucket_setstate"), ("set_reader", "_set_setstate")):
-        r = tu.func(fname)
-        pt = _calls(r, "PyArg_ParseTuple")
-        if not pt:
-            raise AnalysisError("anchor vanished: PyArg_ParseTuple in %s" % fname)
-        f = {"format": _fmt(pt[0], 1)}
-        arith = None
-        for n in r.walk():
-            if n.k == "CompoundAssignOperator" and n.v == "/=" and path(n.kids[0]) in ("len", "l"):
-                arith = "len/%s" % const_int(n.kids[1])
-            if n.k == "BinaryOperator" and n.v == "=" and path(n.kids[0]) in ("len", "l"):
-                rr = strip(n.kids[1])
-                if rr.k == "BinaryOperator" and rr.v in ("/", ">>"):
-                    arith = _norm(text(rr))
-        if key == "leaf_reader":
-            f["mapping_len"] = arith
-            # order of k / v reads from items
-            reads = []
-            for n in r.walk():
-                if n.k == "BinaryOperator" and n.v == "=" and path(n.kids[0]) in ("k", "v") and \
-                        "items" in text(n.kids[1]):
-                    reads.append("key" if path(n.kids[0]) == "k" else "value")
-            f["mapping_order"] = reads[:2]
-        else:
-            f["len_arith"] = arith
-        facts[key] = f
-    # ---- tree writer -----------------------------------------------------------
-    tw = tu.func("BTree_getstate")
-    bv = _calls(tw, "Py_BuildValue")
-    fmts = sorted(_fmt(c, 0) for c in bv)
-    second = [path(c.kids[3]) for c in bv if _fmt(c, 0) == "OO"]
-    size = [_norm(text(c.kids[1])) for c in _calls(tw, "PyTuple_New")]
-    order = [k for k in _slot_order(tw, "r") if k in ("key", "child")]
-    empty = None
-    for n in tw.walk():
-        if n.k == "BinaryOperator" and n.v == "=" and path(n.kids[0]) == "r" and \
-                "_Py_NoneStruct" in text(n.kids[1]):
-            empty = "None"
-    facts["tree_writer"] = {"formats": fmts, "size": size[0] if size else None,
-                            "order": order[:2], "second": second[0] if second else None,
-                            "empty": empty}
-    # ---- tree reader -----------------------------------------------------------
-    tr = tu.func("_BTree_setstate")
-    pt = _calls(tr, "PyArg_ParseTuple")
-    arith = None
-    for n in tr.walk():
-        if n.k == "BinaryOperator" and n.v == "=" and path(n.kids[0]) == "len":
-            rr = strip(n.kids[1])
-            if rr.k == "BinaryOperator" and rr.v == "/":
-                arith = text(rr).replace(" ", "")
-                arith = arith[1:-1] if arith.startswith("(") and arith.endswith(")") else arith
-    none_empty = any(n.k == "IfStmt" and "_Py_NoneStruct" in text(n.kids[0]) and
-                     any(x.k == "ReturnStmt" and const_int(x.kids[0]) == 0 for x in n.kids[1].walk())
-                     for n in tr.walk())
-    order = []
-    conv_lines = {}
-    for n in tr.walk():
-        if n.mo == "COPY_KEY_FROM_ARG" and n.k in ("MemberExpr", "DeclRefExpr"):
-            t = path(n) or ""
-            conv_lines.setdefault(n.l, set()).add("key" if t == "d->key" else
-                                                  "items" if t == "items" else "")
-    for n in tr.walk():
-        if n.mo == "COPY_KEY_FROM_ARG" and {"key", "items"} <= conv_lines.get(n.l, set()):
-            if "key" not in order:
-                order.append("key")
-        if n.k == "BinaryOperator" and n.v == "=":
-            lp = path(n.kids[0])
-            if lp == "v" and "items" in text(n.kids[1]):
-                if "child" not in order:
-                    order.append("child")
-    emb = any(n.k == "IfStmt" and any(x.mo == "PyTuple_Check" for x in n.kids[0].walk()) and
-              any(c.k == "CallExpr" and callee(c)[1] in ("_bucket_setstate", "_set_setstate")
-                  for c in n.kids[1].walk() if c.k == "CallExpr" and callee(c)[0] == "fn")
-              for n in tr.walk())
-    facts["tree_reader"] = {"format": _fmt(pt[0], 1) if pt else None, "len_arith": arith,
-                            "order": order[:2], "none_is_empty": none_empty,
-                            "embedded_by": "PyTuple_Check" if emb else None}
-    return facts
+    """role-stream layout of the five C codecs (sa/rules/clayout.py)"""
+    from . import clayout
+    return clayout.facts(tu)[0]
 
 
 def compare_c(facts):
-    findings = []
-    n = 0
-    for codec, spec in SPEC.items():
-        got = facts.get(codec, {})
-        for k, want in spec.items():
-            n += 1
-            g = got.get(k)
-            if isinstance(want, str) and isinstance(g, str):
-                ok = _norm(g) == _norm(want)
-            else:
-                ok = g == want
-            if not ok:
-                fn = {"leaf_writer": "bucket_getstate", "leaf_reader": "_bucket_setstate",
-                      "set_reader": "_set_setstate", "tree_writer": "BTree_getstate",
-                      "tree_reader": "_BTree_setstate"}[codec]
-                findings.append(dict(
-                    rule="STATE-SHAPE", function=fn, file="src/BTrees", line=1,
-                    construct="%s.%s is %r (state format requires %r)" % (codec, k, g, want),
-                    detail="the serialized-state codec %s deviates from the "
-                           "format shared by writers, readers and the Python "
-                           "implementation: %s = %r, expected %r" % (fn, k, g, want), path=[]))
-    return findings, n
+    from . import clayout
+    return clayout.compare(facts)
 
 
 def type_names(tu):
